@@ -137,6 +137,15 @@ def run(tier, replay):
                 pmeta.append(("peek", a))
                 progs.append(head + "W% = 1\r\nX% = 0\r\nY% = 2\r\n" + segline + "POKE VARPTR(X%%), %d\r\nPOKE VARPTR(X%%) + 1, %d\r\nPRINT X%%; W%%; Y%%\r\n" % (lo, hi) + tail)
                 pmeta.append(("poke", (lo, hi)))
+        # elements of a SHARED array of the module, reached from inside a SUB / a FUNCTION
+        for head, tail in (("DIM SHARED XS%(3)\r\nN% = 7\r\nP\r\nSUB P\r\n", "END SUB\r\n"), ("DIM SHARED XS%(3)\r\nDIM G%(2)\r\nN% = F%\r\nFUNCTION F%\r\n", "END FUNCTION\r\n"),
+                           ("M& = 70000\r\nREDIM SHARED XS%(3)\r\nP\r\nSUB P\r\nL% = 4\r\n", "END SUB\r\n")):
+            for el in (0, 2):
+                ref = "XS%%(%d)" % el
+                progs.append(head + "%s = %d\r\nDEF SEG = VARSEG(%s)\r\nPRINT PEEK(VARPTR(%s)); PEEK(VARPTR(%s) + 1)\r\n" % (ref, a, ref, ref, ref) + tail)
+                pmeta.append(("peek", a))
+                progs.append(head + "XS%%(1) = 258\r\nDEF SEG = VARSEG(%s)\r\nPOKE VARPTR(%s), %d\r\nPOKE VARPTR(%s) + 1, %d\r\nPRINT %s\r\n" % (ref, ref, lo, ref, hi, ref) + tail)
+                pmeta.append(("poke", (lo, hi)))
         for segline in ("", "DIM Q%(2)\r\nQ%(1) = 1027\r\nDEF SEG = VARSEG(Q%(1))\r\nDEF SEG\r\n", "DIM Q%(2)\r\nDEF SEG = VARSEG(Q%(1))\r\nDEF SEG = VARSEG(X%)\r\n"):
             progs.append("W%% = 1\r\nX%% = %d\r\nY%% = 2\r\n" % a + segline + "PRINT PEEK(VARPTR(X%)); PEEK(VARPTR(X%) + 1); W%; Y%\r\n")
             pmeta.append(("peek", a))
